@@ -11,7 +11,7 @@ ID = "C10"
 RULE = ("Families of weight vectors over the same 12-40 real unit ids (str/int), built as chains ordered by prefix shares: "
         "two-group ramps (1%..99%), and vectors obtained by moving weight from a later to an earlier group (exact integer "
         "arithmetic); each vector is evaluated (a) as its own program with its own labels and (b) as one branch of a single "
-        "program selected by a condition field. Oracles: (i) monotone coupling - along the chain no unit moves to a "
+        "program selected by a condition field, plus (c) the public choice function called directly with int and float weight lists. Oracles: (i) monotone coupling - along the chain no unit moves to a "
         "later-declared group; (ii) for each unit the position intervals [P_(g-1), P_g) implied by every observed (vector, "
         "group) - across programs, labels and branches - have a non-empty intersection (widened by 1e-12). No reference hash "
         "is used. Non-trivial = case in which at least one unit changes group along the family; distinct by (units, family, salt).")
@@ -25,7 +25,7 @@ TOL = Fraction(1, 10 ** 12)
 
 @st.composite
 def families(draw):
-    kind = draw(st.sampled_from(["ramp", "ramp", "move", "move", "decimal-ramp"]))
+    kind = draw(st.sampled_from(["ramp", "ramp", "move", "move", "decimal-ramp", "grow", "grow"]))
     fam = []
     if kind == "ramp":
         ps = sorted(draw(st.lists(st.integers(1, 99), min_size=3, max_size=7, unique=True)))
@@ -33,6 +33,19 @@ def families(draw):
     elif kind == "decimal-ramp":
         ps = sorted(draw(st.lists(st.integers(1, 999), min_size=3, max_size=6, unique=True)))
         fam = [["%d.%d" % (p // 10, p % 10), "%d.%d" % ((1000 - p) // 10, (1000 - p) % 10), "0"] for p in ps]
+    elif kind == "grow":
+        # totals change and are not multiples of each other: weight is added to the first group or removed from the last
+        # one, both of which raise (or keep) every leading cumulative share
+        n = draw(st.integers(2, 5))
+        w = [draw(st.integers(1, 9)) for _ in range(n)]
+        fam = [[str(x) for x in w]]
+        for _ in range(draw(st.integers(2, 5))):
+            w = list(w)
+            if draw(st.booleans()) and w[-1] > 1:
+                w[-1] -= draw(st.integers(1, w[-1] - 1))
+            else:
+                w[0] += draw(st.integers(1, 7))
+            fam.append([str(x) for x in w])
     else:
         n = draw(st.integers(2, 6))
         w = [draw(st.integers(0, 50)) for _ in range(n)]
@@ -51,6 +64,9 @@ def families(draw):
             w[i] += d
             w[j] -= d
             fam.append([str(x) for x in w])
+    # the chain must be ordered by prefix shares (checked exactly)
+    for a, b in zip(fam, fam[1:]):
+        assert len(a) == len(b) and all(x <= y for x, y in zip(_prefix(a), _prefix(b))), (a, b)
     # rescale some vectors (same shares, different total): the position must not depend on the total
     scaled = []
     for ws in fam:
@@ -65,7 +81,12 @@ def families(draw):
                                     st.text(alphabet="abcdefghijklmnopqrstuvwxyz0123456789", min_size=1, max_size=10)),
                           min_size=12, max_size=40, unique_by=str))
     salt = draw(st.sampled_from([None, None, "s1", "exp_v2", ""]))
-    return {"family": fam, "units": [M.enc(u) for u in units], "salt": salt, "kind": kind}
+    case = {"family": fam, "units": [M.enc(u) for u in units], "salt": salt, "kind": kind}
+    if len(fam[0]) >= 3 and draw(st.integers(0, 2)) == 0:
+        # the stand-alone programs reuse a label on several slices ("A", "B", "A"): different labels, same weights
+        pool = draw(st.sampled_from([["A", "B"], ["A", "B", "C"], ["A"]]))
+        case["solo_labels"] = [draw(st.sampled_from(pool)) for _ in fam[0]]
+    return case
 
 
 def _prefix(ws):
@@ -79,11 +100,14 @@ def judge(case):
     units = [M.dec(u) for u in case["units"]]
     salt = case["salt"]
     viol = []
-    tags = ["family:" + case["kind"]]
+    tags = ["family:" + case["kind"]] + (["repeated-labels"] if case.get("solo_labels") else [])
     # (a) one program per vector with its own labels; (b) one routed program with all vectors as branches
     evs = []
     for vi, ws in enumerate(fam):
-        body = M.ret([(M.lit_str("v%d_g%d" % (vi, gi)), w) for gi, w in enumerate(ws)])
+        if case.get("solo_labels"):
+            body = M.ret([(M.lit_str(case["solo_labels"][gi]), w) for gi, w in enumerate(ws)])
+        else:
+            body = M.ret([(M.lit_str("v%d_g%d" % (vi, gi)), w) for gi, w in enumerate(ws)])
         res = sut.compile_text(M.render(M.program("solo%d" % vi, body, salt=salt, splitters=["uid"])))
         if res[0] != "ok":
             return {"viol": ["does not compile: %s %s" % res[1:]], "tags": tags}
@@ -103,7 +127,21 @@ def judge(case):
             a = sut.call(evs[vi], {"uid": u})
             b = sut.call(routed, {"uid": u, "route": vi})
             idxs = []
-            for act, pref in ((a, "v%d_g" % vi), (b, "r%d_g" % vi)):
+            if case.get("solo_labels"):
+                # labels repeat: the routed twin (unique labels) tells the index, the stand-alone program must return the
+                # label declared at that index
+                pref = "r%d_g" % vi
+                if b[0] != "group" or not (isinstance(b[1], str) and b[1].startswith(pref)):
+                    viol.append("unit %r vector %r: unexpected outcome %r" % (u, ws, b))
+                    continue
+                i = int(b[1][len(pref):])
+                want = case["solo_labels"][i]
+                if a != ("group", want):
+                    viol.append("unit %r, weights %r with labels %r: the twin with unique labels selects slice %d (label %r), this "
+                                "program returned %r" % (u, ws, case["solo_labels"], i, want, a[1:]))
+                idxs = [i, i]
+                a = b
+            for act, pref in (() if case.get("solo_labels") else ((a, "v%d_g" % vi), (b, "r%d_g" % vi))):
                 if act[0] != "group" or not (isinstance(act[1], str) and act[1].startswith(pref)):
                     viol.append("unit %r vector %r: unexpected outcome %r" % (u, ws, act))
                     continue
@@ -125,6 +163,32 @@ def judge(case):
             prev = i
         if not lo < hi:
             viol.append("unit %r: no single position is consistent with its groups under %r (salt %r)" % (u, fam, salt))
+    # the public choice function itself (int and float weight lists), one id string = one unit
+    dc = sut.binning().deterministic_choice
+    for u in units[:12]:
+        key = "direct:" + str(u)
+        for mode in ("as-written", "float"):
+            lo, hi = Fraction(0), Fraction(1)
+            prev = None
+            for vi, ws in enumerate(fam):
+                nums = [float(w) for w in ws] if mode == "float" else [float(w) if "." in w else int(w) for w in ws]
+                try:
+                    i = dc(key, list(range(len(ws))), weights=nums)
+                except Exception as e:
+                    viol.append("deterministic_choice(%r, weights=%r) raised %s: %s" % (key, nums, type(e).__name__, e))
+                    break
+                P = _prefix(ws)
+                lo = max(lo, P[i] - TOL)
+                hi = min(hi, P[i + 1] + TOL)
+                if prev is not None and i > prev:
+                    viol.append("deterministic_choice: id %r moved to a later item (%d -> %d) although no prefix share decreased: "
+                                "weights %r -> %r" % (key, prev, i, fam[vi - 1], nums))
+                if prev is not None and i != prev:
+                    moved += 1
+                prev = i
+            if not lo < hi:
+                viol.append("deterministic_choice: id %r: no single position is consistent with its choices under %r (%s weights)"
+                            % (key, fam, mode))
     if moved:
         tags.append("some-unit-moved")
     return {"viol": viol[:8], "nontrivial": moved > 0, "tags": tags, "key": [case["units"], fam, salt],
@@ -136,4 +200,4 @@ def judge_case(record):
 
 
 def run(ctx, rec):
-    runner.hyp_run(ctx, rec, "families", families(), judge, ctx.n(150, 1200))
+    runner.hyp_run(ctx, rec, "families", families(), judge, ctx.n(400, 1500))
